@@ -40,9 +40,9 @@ func hashOf(i int) core.InfoHash {
 
 func run(c Case) pbt.Verdict {
 	q := announcequeue.New()
-	var ready []int             // model FIFO
-	pending := map[int]bool{}   // model in-flight set
-	in := func(h int) bool { // in ready list
+	var ready []int           // model FIFO
+	pending := map[int]bool{} // model in-flight set
+	in := func(h int) bool {  // in ready list
 		for _, x := range ready {
 			if x == h {
 				return true
@@ -158,9 +158,9 @@ func run(c Case) pbt.Verdict {
 
 func TestProp(t *testing.T) {
 	pbt.Main(t, pbt.Spec{
-		ID:   "C20",
-		Rule: "random add/next/ready/eject sequences (6-60 ops) over 1-5 info hashes, Add only when the model says the hash is absent (documented precondition); lock-step FIFO+pending model, drained at the end; part sched: the queue as the scheduler's events drive it (one agent scheduler behind the harness-driven event loop: downloads, announce ticks, announce results with 0-3 unreachable peers handed out, incoming connections that fill the 1-2 connection slots so that ticks skip saturated torrents, removals, pending events applied in the order the case says); after every step: no torrent twice in the queue, none waiting and marked as being announced at once, every torrent still being downloaded waiting or being announced (completed ones leave the queue by design), nothing left of removed torrents, and a torrent marked as being announced has an announce under way; non-trivial (queue) = at least one eject of a queued or in-flight torrent and >=2 Next calls; distinct by case hash",
+		ID:          "C20",
+		Rule:        "random add/next/ready/eject sequences (6-60 ops) over 1-5 info hashes, Add only when the model says the hash is absent (documented precondition); lock-step FIFO+pending model, drained at the end; part sched: the queue as the scheduler's events drive it (one agent scheduler behind the harness-driven event loop: downloads, announce ticks, announce results with 0-3 unreachable peers handed out, incoming connections that fill the 1-2 connection slots so that ticks skip saturated torrents, removals, pending events applied in the order the case says); after every step: no torrent twice in the queue, none waiting and marked as being announced at once, every torrent still being downloaded waiting or being announced (completed ones leave the queue by design), nothing left of removed torrents, and a torrent marked as being announced has an announce under way; non-trivial (queue) = at least one eject of a queued or in-flight torrent and >=2 Next calls; distinct by case hash",
 		Assumptions: []string{"reference model of the queue written from the property statement", "Add is never issued for a torrent already queued or in flight (documented as undefined)"},
-		Parts: []pbt.Part{pbt.NewPart("queue", 19, gen, run), pbt.NewPart("sched", 1, genSched, runSched)},
+		Parts:       []pbt.Part{pbt.NewPart("queue", 19, gen, run), pbt.NewPart("sched", 1, genSched, runSched)},
 	})
 }
